@@ -137,7 +137,7 @@ static void gen_loop(Loop& L, int maxn, int maxrows) {
   else if (prof == "shapes") L.kind = rnd(K_BD, K_BOX);
   else { int r = rnd(0, 99); L.kind = r < 30 ? K_C : r < 52 ? K_NNC : r < 68 ? K_BD : r < 84 ? K_OCT : K_BOX; }
   L.two = coin(45);
-  { int r = rnd(0, 99); L.n = r < 3 ? 0 : r < 36 ? 1 : r < 76 ? 2 : 3; if (L.n > maxn) L.n = maxn; }
+  { int r = rnd(0, 99); L.n = r < 3 ? 0 : r < 36 ? 1 : r < 76 ? 2 : 3; if (L.n > maxn) L.n = maxn; if (maxn > 3 && coin(12)) L.n = rnd(4, maxn); }
   const int n = L.n, k = L.kind;
   L.build_mode_a = rnd(0, 9); L.build_mode_b = rnd(0, 9);
   L.call_mask = 0; for (int c = 0; c < CALL_COUNT; ++c) if (!coin(12)) L.call_mask |= 1 << c;
@@ -513,8 +513,8 @@ static bool g_selftested = false;
 static void run_case(uint64_t) {
   if (!g_selftested) { g_selftested = true; selftest(); if (hx::st().case_tainted) return; }
   g_budget = (unsigned long long) hx::opt().geti("budget", 200000000L);
-  const int maxn = (int) hx::opt().geti("maxn", 3);
-  const int maxrows = (int) hx::opt().geti("maxrows", hx::opt().thorough ? 12 : 10);
+  const int maxn = (int) hx::opt().geti("maxn", hx::opt().thorough ? 4 : 3);
+  const int maxrows = (int) hx::opt().geti("maxrows", hx::opt().thorough ? 14 : 10);
   Loop L;
   for (int attempt = 0; ; ++attempt) {
     L = Loop(); gen_loop(L, maxn, maxrows);
